@@ -119,6 +119,25 @@ func vc17checkSorted(l *List[vc17e], in []vc17e, lt cmp.LessThan[vc17e], stable 
 		b := l.PopBack()
 		vf.Assert(vf.And(b.Ok(), b.Value().ID == 99), "popback-after-sort")
 	}
+	// insertions next to the sentinel, on the sorted list and after draining it
+	l.PushFront(vc17e{Key: 0, ID: 98})
+	vf.Assert(l.Front().Value().ID == 98, "pushfront-after-sort")
+	vf.Assert(l.Front().In(l), "pushed-element-not-in-list-after-sort")
+	m := l.Len()
+	drained := 0
+	for e := l.PopFront(); e.Ok() && drained <= n+2; e = l.PopFront() {
+		drained++
+	}
+	vf.Assert(drained == m, "drain-after-sort-differs-from-len")
+	vf.Assert(l.Len() == 0, "len-after-drain-after-sort")
+	l.PushBack(vc17e{Key: 0, ID: 97})
+	l.PushFront(vc17e{Key: 0, ID: 96})
+	vf.Assert(l.Len() == 2, "len-after-refill-after-sort")
+	vf.Assert(vf.And(l.Front().In(l), l.Back().In(l)), "refilled-element-not-in-list-after-sort")
+	rf, rterm := vc17fwd(l, 4)
+	vf.Assert(rterm && len(rf) == 2 && rf[0].ID == 96 && rf[1].ID == 97, "walk-after-refill-after-sort")
+	p2 := l.PopBack()
+	vf.Assert(p2.Ok() && p2.Value().ID == 97, "popback-after-refill-after-sort")
 }
 
 func VC17_SortMerge() {
